@@ -285,6 +285,9 @@ pub fn encode_layer(l: &WLayer, o: &EncOpts, rng: &mut Rng) -> Vec<u8> {
 	let mut keys: Vec<String> = vec![];
 	let mut vals: Vec<Vec<u8>> = vec![];
 	let mut feats: Vec<Vec<u8>> = vec![];
+	// first index of every key / value (tables of wide layers have > 16384 entries)
+	let mut kpos: std::collections::HashMap<String, usize> = std::collections::HashMap::new();
+	let mut vpos: std::collections::HashMap<Vec<u8>, usize> = std::collections::HashMap::new();
 	if o.unused_entries {
 		keys.push("unused-key".into());
 		vals.push(enc_value(&WVal::Str("unused value".into())));
@@ -292,18 +295,20 @@ pub fn encode_layer(l: &WLayer, o: &EncOpts, rng: &mut Rng) -> Vec<u8> {
 	for f in &l.features {
 		let mut tags: Vec<u32> = vec![];
 		for (k, v) in &f.props {
-			let ki = match keys.iter().position(|x| x == k) {
+			let ki = match kpos.get(k).cloned() {
 				Some(i) if !(o.dup_keys && rng.chance(0.6)) => i,
 				_ => {
 					keys.push(k.clone());
+					kpos.entry(k.clone()).or_insert(keys.len() - 1);
 					keys.len() - 1
 				}
 			};
 			let ev = enc_value(v);
-			let vi = match vals.iter().position(|x| *x == ev) {
+			let vi = match vpos.get(&ev).cloned() {
 				Some(i) if !(o.dup_vals && rng.chance(0.6)) => i,
 				_ => {
-					vals.push(ev);
+					vals.push(ev.clone());
+					vpos.entry(ev).or_insert(vals.len() - 1);
 					vals.len() - 1
 				}
 			};
@@ -452,11 +457,14 @@ pub struct GenOpts {
 	/// every feature gets this property (string or integer), used as join key by C11
 	pub id_field: Option<String>,
 	pub big_ids: bool,
+	/// probability that a tile additionally gets a layer "wide" whose key / value tables cross the
+	/// varint borders of the tag indices (128, 16384)
+	pub wide_tables: f64,
 }
 
 impl Default for GenOpts {
 	fn default() -> Self {
-		GenOpts { layer_names: vec!["roads".into(), "water".into(), "places".into(), "land use".into(), "ünï".into()], max_layers: 4, max_features: 6, extreme_values: true, unknown_geom: true, id_field: None, big_ids: true }
+		GenOpts { layer_names: vec!["roads".into(), "water".into(), "places".into(), "land use".into(), "ünï".into()], max_layers: 4, max_features: 6, extreme_values: true, unknown_geom: true, id_field: None, big_ids: true, wide_tables: 0.0 }
 	}
 }
 
@@ -497,5 +505,38 @@ pub fn gen_layers(rng: &mut Rng, o: &GenOpts) -> Vec<WLayer> {
 		}
 		layers.push(WLayer { name, version: *rng.pick(&[1u32, 2, 2, 2]), extent: *rng.pick(&[4096u32, 4096, 512, 8192, 256]), features });
 	}
+	if o.wide_tables > 0.0 && rng.chance(o.wide_tables) {
+		layers.push(wide_layer(rng, o));
+	}
 	layers
+}
+
+/// does one of the layers refer to more than 16384 (key, value) pairs — tag indices of three varint bytes?
+pub fn has_wide_table(layers: &[WLayer]) -> bool {
+	layers.iter().any(|l| l.features.iter().map(|f| f.props.len()).sum::<usize>() > 16384)
+}
+
+/// a layer whose features carry so many distinct keys and values that tag indices need two and three
+/// varint bytes; values are unique per call, so merging two such layers yields the union of the tables
+pub fn wide_layer(rng: &mut Rng, o: &GenOpts) -> WLayer {
+	let pairs = *rng.pick(&[130usize, 300, 9000, 17000]);
+	let per_feature = *rng.pick(&[1usize, 25, 400]);
+	let tag = rng.below(1 << 40);
+	let shared_keys = rng.bool();
+	let mut features = vec![];
+	let mut i = 0;
+	while i < pairs {
+		let mut props: Vec<(String, WVal)> = vec![];
+		if let Some(idf) = &o.id_field {
+			props.push((idf.clone(), WVal::UInt64(rng.below(12))));
+		}
+		for _ in 0..per_feature.min(pairs - i) {
+			let k = if shared_keys { format!("k{}", i % per_feature) } else { format!("k{i}") };
+			let v = if i % 3 == 0 { WVal::Str(format!("w{tag:x}-{i}")) } else { WVal::UInt64(tag.wrapping_add(i as u64)) };
+			props.push((k, v));
+			i += 1;
+		}
+		features.push(WFeature { id: Some(features.len() as u64), gtype: 1, geom: gen_geometry(rng, 1), props });
+	}
+	WLayer { name: "wide".into(), version: 2, extent: 4096, features }
 }
